@@ -30,7 +30,7 @@ Ents(a) == {[name |-> e.name, rate |-> e.rate] : e \in Rng(a)}
 ToCfg(j) == [goos |-> Rng(j.goos), goarch |-> Rng(j.goarch), gover |-> Rng(j.gover), sample |-> j.sample,
              progs |-> {[name |-> p.name, versions |-> Rng(p.versions),
                          counters |-> Ents(p.counters), stacks |-> Ents(p.stacks)] : p \in Rng(j.progs)}]
-ToFile(f) == [id |-> f.id, build |-> f.build, week |-> f.week, counts |-> {[n |-> c.n, v |-> c.v] : c \in Rng(f.counts)}]
+ToFile(f) == [id |-> f.id, build |-> f.build, week |-> f.week, expired |-> f.expired, counts |-> {[n |-> c.n, v |-> c.v] : c \in Rng(f.counts)}]
 ToFiles(a) == {ToFile(f) : f \in Rng(a)}
 ToData(a) == {[b |-> t.b, n |-> t.n, v |-> t.v] : t \in Rng(a)}
 ToRep(a) == {[build |-> p.build, counters |-> Rng(p.counters), stacks |-> Rng(p.stacks)] : p \in Rng(a)}
